@@ -203,6 +203,20 @@ FAMILIES = {
         sharing=True,
         runs={"quick": [dict(mode="bfs", max_nodes=6, min_nodes=6, split=4)], "thorough": [dict(mode="bfs", max_nodes=6, min_nodes=6, split=4)]},
         shards=[["case"]], shard_defs={"case": "SK_case"}),
+    "coalesceiter": dict(
+        consts=dict(Raises="NoRaises", Kinds="SK_all", Paths="FC_Paths", Consts="FCQ_Consts", Tmpls="None0",
+                    Fns="None0", Bodies="None0", DispVals="NoSeq", Preds="None0", Presets="None0",
+                    MapPaths="None0", Leaves="FCI_Leaves", PlainOpts="TRUE", KindSeq="FCI_Seq", CollKinds="FCI_Coll"),
+        sharing=True,
+        runs={"quick": [dict(mode="bfs", max_nodes=5, min_nodes=5)], "thorough": [dict(mode="bfs", max_nodes=5, min_nodes=5)]},
+        shards=[["coalesce"]], shard_defs={"coalesce": "SK_coalesce"}),
+    "failseq": dict(
+        consts=dict(Raises="FR_Raises", Kinds="SK_all", Paths="FR4_Paths", Consts="FR_Consts", Tmpls="None0",
+                    Fns="None0", Bodies="FR_Bodies", DispVals="FFS_Disp", Preds="None0", Presets="None0",
+                    MapPaths="None0", Leaves="FFS_Leaves", PlainOpts="TRUE", KindSeq="FFS_Seq"),
+        sharing=True,
+        runs={"quick": [dict(mode="bfs", max_nodes=5, min_nodes=5, split=4)], "thorough": [dict(mode="bfs", max_nodes=5, min_nodes=5, split=4)]},
+        shards=[["coalesce"]], shard_defs={"coalesce": "SK_coalesce"}),
     "illsorted": dict(
         consts=dict(Raises="NoRaises", Kinds="FI_Kinds", Paths="FI_Paths", Consts="FI_Consts", Tmpls="None0",
                     Fns="None0", Bodies="None0", DispVals="NoSeq", Preds="None0", Presets="None0",
